@@ -113,4 +113,21 @@ def styled_payload(rnd, n, style):
         words = (b"\x00\x00", b"\xff\xff", b"\x7f\xff", b"\x80\x00")
         return b"".join(rnd.choice(words) if rnd.random() < 0.4 else bytes((rnd.randrange(256), rnd.randrange(256)))
                         for _ in range(n // 2 + 1))[:n]
+    if style == "harvest":
+        # words / double words holding integer constants found in the source under test (and their neighbours), two's complement
+        from . import env
+        hv = env.harvest_ints()
+        out = bytearray()
+        while len(out) < n:
+            v = rnd.choice(hv)
+            r = rnd.random()
+            if r < 0.45 and -32768 <= v < 65536:
+                out += (v & 0xFFFF).to_bytes(2, "big")
+            elif r < 0.8:
+                out += (v & 0xFFFFFFFF).to_bytes(4, "big")
+            elif r < 0.9:
+                out += bytes(2)
+            else:
+                out += bytes((rnd.randrange(256), rnd.randrange(256)))
+        return bytes(out[:n])
     return bytes(rnd.randrange(256) for _ in range(n))
